@@ -164,6 +164,7 @@ pub fn run_case(c: &FwCase) -> String {
     for m in &c.machines {
         let _ = writeln!(out, "m {}", hex(&genm::machine_bytes(m)));
     }
+    let _ = writeln!(out, "rng {} {}", c.rng_seed, c.extreme);
     maybenot::verif::enable(true);
     let _ = maybenot::verif::take();
     let rng = ScriptRng::new(c.rng_seed, c.extreme);
@@ -294,4 +295,102 @@ pub fn gen_general(p: &mut Prng, id: String) -> FwCase {
     let wild = p.chance(1, 2);
     let calls = gen_history(p, n, single, 80, wild);
     FwCase { id, kind: "general".into(), machines, fp, fb, t0: 0, calls, rng_seed: p.next(), extreme: *p.pick(&[0, 0, 4, 16]) }
+}
+
+/// Actions only (no hooks): used for the determinism / clone comparison.
+fn run_actions_only(c: &FwCase, clone_at: Option<usize>) -> Vec<String> {
+    let mut res = Vec::new();
+    let rng = ScriptRng::new(c.rng_seed, c.extreme);
+    let r = catch_unwind(AssertUnwindSafe(|| Framework::new(c.machines.clone(), c.fp, c.fb, VInstant(c.t0), rng)));
+    let mut f = match r {
+        Ok(Ok(f)) => f,
+        _ => return res,
+    };
+    for (i, (t, evs)) in c.calls.iter().enumerate() {
+        if clone_at == Some(i) {
+            // continue on a clone; the original is dropped
+            f = clone_fw(&f);
+        }
+        let r = catch_unwind(AssertUnwindSafe(|| {
+            let acts: Vec<TriggerAction<VInstant>> = f.trigger_events(evs, VInstant(*t)).cloned().collect();
+            acts
+        }));
+        match r {
+            Ok(acts) => {
+                let mut o = String::new();
+                fmt_actions(&mut o, &acts);
+                res.push(o);
+            }
+            Err(_) => {
+                res.push("panic".into());
+                break;
+            }
+        }
+    }
+    res
+}
+
+fn clone_fw(f: &Framework<Vec<Machine>, ScriptRng, VInstant>) -> Framework<Vec<Machine>, ScriptRng, VInstant> {
+    f.clone()
+}
+
+/// `o DET ok|fail`: the same inputs give the same actions (second instance, and a clone taken mid-history).
+pub fn det_line(c: &FwCase, p: &mut Prng) -> String {
+    let a = run_actions_only(c, None);
+    let b = run_actions_only(c, None);
+    let at = if c.calls.is_empty() { None } else { Some(p.below(c.calls.len() as u64) as usize) };
+    let d = run_actions_only(c, at);
+    if a == b && a == d {
+        "det ok\n".into()
+    } else {
+        format!("det fail clone_at={:?}\n", at)
+    }
+}
+
+/// Parse the input lines of a protocol file (ignoring `o` and `orc` lines) back into cases.
+pub fn parse_cases(text: &str) -> Vec<FwCase> {
+    use bincode::Options;
+    let mut res = Vec::new();
+    let mut cur: Option<FwCase> = None;
+    for line in text.lines() {
+        let ws: Vec<&str> = line.split_whitespace().collect();
+        match ws.as_slice() {
+            ["case", id, kind @ ..] => {
+                cur = Some(FwCase { id: id.to_string(), kind: kind.join(" "), machines: vec![], fp: 0.0, fb: 0.0, t0: 0, calls: vec![], rng_seed: 0, extreme: 0 });
+            }
+            ["m", h] => {
+                if let (Some(c), Some(b)) = (cur.as_mut(), crate::util::unhex(h)) {
+                    if let Ok(m) = bincode::DefaultOptions::new().deserialize::<Machine>(&b) {
+                        c.machines.push(m);
+                    }
+                }
+            }
+            ["rng", s, e] => {
+                if let Some(c) = cur.as_mut() {
+                    c.rng_seed = s.parse().unwrap_or(0);
+                    c.extreme = e.parse().unwrap_or(0);
+                }
+            }
+            ["new", fp, fb, t0] => {
+                if let Some(c) = cur.as_mut() {
+                    c.fp = f64::from_bits(u64::from_str_radix(fp, 16).unwrap_or(0));
+                    c.fb = f64::from_bits(u64::from_str_radix(fb, 16).unwrap_or(0));
+                    c.t0 = t0.parse().unwrap_or(0);
+                }
+            }
+            ["call", t, evs @ ..] => {
+                if let Some(c) = cur.as_mut() {
+                    let evs: Vec<TriggerEvent> = evs.iter().filter_map(|e| parse_ev(e)).collect();
+                    c.calls.push((t.parse().unwrap_or(0), evs));
+                }
+            }
+            ["end"] => {
+                if let Some(c) = cur.take() {
+                    res.push(c);
+                }
+            }
+            _ => {}
+        }
+    }
+    res
 }
